@@ -493,6 +493,11 @@ func main() {
 	for _, v := range vs {
 		files, _ := filepath.Glob(filepath.Join(ev.Root, "work", "farm", "cur", v.name, "*.graphql"))
 		sort.Strings(files)
+		if yml, _ := os.ReadFile(filepath.Join(ev.Root, "work", "farm", "cur", v.name, "gqlgen.yml")); strings.Contains(string(yml), "../_shared/extra.graphql") {
+			// a source outside the package directory (compiled into the generated code as text)
+			files = append(files, filepath.Join(ev.Root, "work", "farm", "cur", "_shared", "extra.graphql"))
+			rep.Count("probe_schemas_with_inlined_source", 1)
+		}
 		var srcs []*ast.Source
 		var all strings.Builder
 		for _, f := range files {
